@@ -9,6 +9,7 @@ import (
 	"context"
 	"fmt"
 	"io"
+	"os"
 	"os/exec"
 	"regexp"
 	"strconv"
@@ -37,9 +38,41 @@ type Solver struct {
 	marker   int
 	dead     bool
 	bin      string
+	frames   []solverFrame
 }
 
+type solverFrame struct {
+	nAsserted int
+	defs      []*Term
+}
+
+// Push opens a frame whose assertions and definitions Pop discards.
+func (s *Solver) Push() {
+	s.buf.WriteString("(push 1)\n")
+	s.frames = append(s.frames, solverFrame{nAsserted: len(s.asserted)})
+}
+
+func (s *Solver) Pop() {
+	f := s.frames[len(s.frames)-1]
+	s.frames = s.frames[:len(s.frames)-1]
+	s.buf.WriteString("(pop 1)\n")
+	for _, t := range f.defs {
+		delete(s.defined, t)
+	}
+	s.asserted = s.asserted[:f.nAsserted]
+}
+
+
 var solverBin = "/usr/bin/z3"
+var slowLogDir = os.Getenv("SYMGO_SLOWLOG")
+var slowN int64
+var dumpStdin = func() *os.File {
+	if p := os.Getenv("SYMGO_DUMPSTDIN"); p != "" {
+		f, _ := os.Create(p)
+		return f
+	}
+	return nil
+}()
 
 func newSolver() *Solver {
 	s := &Solver{bin: solverBin}
@@ -65,6 +98,7 @@ func (s *Solver) start() {
 	s.out = bufio.NewReaderSize(out, 1<<16)
 	s.defined = make(map[*Term]bool)
 	s.asserted = nil
+	s.frames = nil
 	s.dead = false
 	s.buf.Reset()
 }
@@ -87,14 +121,19 @@ func (s *Solver) Reset() {
 	s.buf.WriteString("(reset)\n")
 	s.defined = make(map[*Term]bool)
 	s.asserted = s.asserted[:0]
+	s.frames = s.frames[:0]
 }
 
 // define emits declarations/definitions for all subterms of t not yet known.
 func (s *Solver) define(t *Term) {
-	defineInto(&s.buf, s.defined, t)
+	var log *[]*Term
+	if n := len(s.frames); n > 0 {
+		log = &s.frames[n-1].defs
+	}
+	defineInto(&s.buf, s.defined, t, log)
 }
 
-func defineInto(buf *bytes.Buffer, defined map[*Term]bool, t *Term) {
+func defineInto(buf *bytes.Buffer, defined map[*Term]bool, t *Term, log *[]*Term) {
 	if defined[t] || t.Op == OpConst {
 		return
 	}
@@ -125,6 +164,9 @@ func defineInto(buf *bytes.Buffer, defined map[*Term]bool, t *Term) {
 			fmt.Fprintf(buf, "(define-fun t%d () %s %s)\n", x.id, sortOf(x.W), body(x))
 		}
 		defined[x] = true
+		if log != nil {
+			*log = append(*log, x)
+		}
 		stack = stack[:len(stack)-1]
 	}
 }
@@ -194,6 +236,12 @@ func (s *Solver) Check(extra *Term, timeoutMs int, vars []*Term) (res string, mo
 pop:
 	s.buf.WriteString("(pop 1)\n")
 	atomic.AddInt64(&gstats.Nanos, int64(time.Since(t0)))
+	if d := time.Since(t0); slowLogDir != "" && d > 300*time.Millisecond {
+		n := atomic.AddInt64(&slowN, 1)
+		if n < 40 {
+			os.WriteFile(fmt.Sprintf("%s/slow-%d-%s-%dms.smt2", slowLogDir, n, res, d.Milliseconds()), []byte(s.Script(extra, nil)), 0o644)
+		}
+	}
 	switch res {
 	case "sat":
 		atomic.AddInt64(&gstats.Sat, 1)
@@ -229,6 +277,9 @@ func (s *Solver) flushAndRead(marker string) []string {
 	if s.dead {
 		return []string{"unknown"}
 	}
+	if dumpStdin != nil {
+		dumpStdin.Write(s.buf.Bytes())
+	}
 	if _, err := s.in.Write(s.buf.Bytes()); err != nil {
 		s.dead = true
 		s.buf.Reset()
@@ -258,15 +309,15 @@ func (s *Solver) Script(extra *Term, vars []*Term) string {
 	var b bytes.Buffer
 	def := make(map[*Term]bool)
 	for _, a := range s.asserted {
-		defineInto(&b, def, a)
+		defineInto(&b, def, a, nil)
 		fmt.Fprintf(&b, "(assert %s)\n", ref(a))
 	}
 	if extra != nil {
-		defineInto(&b, def, extra)
+		defineInto(&b, def, extra, nil)
 		fmt.Fprintf(&b, "(assert %s)\n", ref(extra))
 	}
 	for _, v := range vars {
-		defineInto(&b, def, v)
+		defineInto(&b, def, v, nil)
 	}
 	b.WriteString("(check-sat)\n")
 	if len(vars) > 0 {
